@@ -36,52 +36,6 @@ namespace {
          std::string(desc) + " threw " + e.what());                   \
   }
 
-template <typename T>
-bool sameBits(const T &a, const T &b) {
-  if constexpr (ST<T>::exact) {
-    return vq::peek(a) == vq::peek(b);
-  } else {
-    if (std::isnan(a) || std::isnan(b)) return std::isnan(a) && std::isnan(b);
-    return a == b && std::signbit(a) == std::signbit(b);
-  }
-}
-
-template <typename T>
-struct Snap {
-  bool live = false;
-  const void *gridPtr = nullptr;
-  std::vector<T> grid;
-  size_t start = 0, end = 0;
-  std::vector<T> coef;
-  bool operator==(const Snap &o) const {
-    if (live != o.live) return false;
-    if (!live) return true;
-    if (gridPtr != o.gridPtr || start != o.start || end != o.end ||
-        grid.size() != o.grid.size() || coef.size() != o.coef.size())
-      return false;
-    for (size_t i = 0; i < grid.size(); i++)
-      if (!sameBits(grid[i], o.grid[i])) return false;
-    for (size_t i = 0; i < coef.size(); i++)
-      if (!sameBits(coef[i], o.coef[i])) return false;
-    return true;
-  }
-};
-
-template <typename T, size_t o>
-Snap<T> snapOf(const std::optional<Spline<T, o>> &s) {
-  Snap<T> r;
-  if (!s) return r;
-  r.live = true;
-  const auto &sup = s->getSupport();
-  r.gridPtr = sup.getGrid().getData().get();
-  r.grid.assign(sup.getGrid().begin(), sup.getGrid().end());
-  r.start = sup.getStartIndex();
-  r.end = sup.getEndIndex();
-  for (const auto &cs : s->getCoefficients())
-    for (const auto &c : cs) r.coef.push_back(c);
-  return r;
-}
-
 template <typename T, size_t o>
 struct Slot {
   std::optional<Spline<T, o>> s;
@@ -91,21 +45,6 @@ struct Slot {
 template <typename T, size_t... I>
 auto makeSlots(std::index_sequence<I...>) {
   return std::tuple<std::array<Slot<T, I>, NSLOT>...>{};
-}
-
-int classify(const Win &a, const Win &b) {
-  if (a.empty() && b.empty()) return P_BOTH_EMPTY;
-  if (a.empty()) return P_A_EMPTY;
-  if (b.empty()) return P_B_EMPTY;
-  if (a.end - a.start == 1) return P_A_POINT;
-  if (b.end - b.start == 1) return P_B_POINT;
-  if (a.start == b.start && a.end == b.end) return P_EQ;
-  const size_t lo = std::max(a.start, b.start), hi = std::min(a.end, b.end);
-  if (hi <= lo) return P_GAP;
-  if (hi - lo == 1) return P_TOUCH;
-  if (a.start >= b.start && a.end <= b.end) return P_A_IN_B;
-  if (b.start >= a.start && b.end <= a.end) return P_B_IN_A;
-  return a.start < b.start ? P_PARTIAL_L : P_PARTIAL_R;
 }
 
 template <typename T>
@@ -1050,7 +989,8 @@ struct Machine {
                                   "fail-add-assign", "fail-sub-assign",
                                   "fail-lincomb",  "fail-ctor-count",
                                   "fail-front-empty", "fail-at",
-                                  "fail-lincomb-size", "fail-factor"};
+                                  "fail-lincomb-size", "fail-factor",
+                                  "fail-grid-ctor"};
     const size_t ia = g.below(NSLOT);
     beginStep(names[kind]);
     ensure<oa>(ia);
@@ -1162,6 +1102,29 @@ struct Machine {
                   "C11");
         break;
       }
+      case 11: {
+        // a malformed point sequence must not become a live grid
+        std::vector<R> bad = gridPts;
+        const size_t pos = g.below(bad.size() - 1);
+        const int defect = (int)g.below(3);
+        if (defect == 0)
+          std::swap(bad[pos], bad[pos + 1]);  // descent
+        else if (defect == 1)
+          bad[pos + 1] = bad[pos];  // duplicate
+        else
+          bad.resize(g.below(2));  // too short
+        std::optional<Grid<T>> made;
+        expectAny([&] { made.emplace(mkVec<T>(bad)); }, "C11");
+        if (made) {
+          bool inc = made->size() >= 2;
+          for (size_t i = 0; inc && i + 1 < made->size(); i++)
+            if (!((*made)[i] < (*made)[i + 1])) inc = false;
+          if (!inc)
+            viol("C10", "grid-invariant/fail-grid-ctor",
+                 "a live grid holds the points " + gridStr(bad));
+        }
+        break;
+      }
       default: {
         using namespace bspline::operators;
         if (a.getSupport().containsIntervals())
@@ -1209,7 +1172,7 @@ struct Machine {
           });
         } else {
           dispatchOrder<MAXO>(ob, [&](auto OB) {
-            stepFailing<A, OB.value>((int)g.below(11));
+            stepFailing<A, OB.value>((int)g.below(12));
           });
         }
       });
